@@ -172,8 +172,50 @@ func c15DedupSort(p *chk.Prog, r *chk.Report) {
 	pfx := definedBy(g, "A.Prefix.String()", chk.H("A", adv))
 	appAllowed := f.IsAssignPat("N.ToAdvertise.Allowed.Prefixes", "append(N.ToAdvertise.Allowed.Prefixes, P)", chk.H("P", pfx))
 	routerPfx := f.IsAssignPat("R.prefixes[P]", "P", chk.H("P", pfx))
-	x.Check("updateConfig:every-advertisement-allowed", advLoop.Pos(), !loopSkipsWithout(g, advLoop, appAllowed, chk.NoGuard) && !loopHasBreak(g, advLoop), "", "an advertisement of the session can be left out of the neighbour's allowed prefixes")
-	x.Check("updateConfig:every-advertisement-originated", advLoop.Pos(), !loopSkipsWithout(g, advLoop, routerPfx, chk.NoGuard), "", "an advertised prefix is not added to the router's prefixes (it would be allowed but never originated)")
+	okAllowed := !loopSkipsWithout(g, advLoop, appAllowed, chk.NoGuard) && !loopHasBreak(g, advLoop)
+	okOrig := !loopSkipsWithout(g, advLoop, routerPfx, chk.NoGuard)
+	// the prefixes collected into a list first (one per advertisement, by a helper), then handed on as a whole
+	isAdvs := func(e ast.Expr) bool { return f.MatchWith("S.advertised", e, chk.H("S", sess)) != nil }
+	prefixOf := func(a func(ast.Expr) bool) func(ast.Expr) bool {
+		return func(e ast.Expr) bool {
+			return definedBy(g, "A.Prefix.String()", chk.H("A", a))(e) || f.MatchWith("A.Prefix.String()", e, chk.H("A", a)) != nil
+		}
+	}
+	allPrefixes := func(e ast.Expr) bool { return mappedList(f, g, e, isAdvs, prefixOf) }
+	if !okAllowed {
+		for _, s := range g.Find(func(n ast.Node) bool {
+			as, ok := n.(*ast.AssignStmt)
+			if !ok || len(as.Lhs) != 1 || len(as.Rhs) != 1 || !chk.InBody(sessLoop, n) || f.MatchNew("N.ToAdvertise.Allowed.Prefixes", as.Lhs[0]) == nil {
+				return false
+			}
+			call, ok := ast.Unparen(as.Rhs[0]).(*ast.CallExpr)
+			if !ok || len(call.Args) != 2 || !call.Ellipsis.IsValid() || !f.SameExpr(call.Args[0], as.Lhs[0]) {
+				return false
+			}
+			id, isId := call.Fun.(*ast.Ident)
+			return isId && id.Name == "append" && allPrefixes(call.Args[1])
+		}) {
+			// once per session, on every path to the neighbour's store
+			okAllowed = f.LoopOf(s.Node) == ast.Node(sessLoop)
+			for _, st := range g.Find(f.IsAssignPat("R.neighbors[K]", "N")) {
+				from := chk.Site{G: g, B: bodyStart(g, sessLoop).B, I: -1}
+				if g.MustPass(from, func(n ast.Node) bool { return n == st.Top }, false, func(n ast.Node) bool { return n == s.Top }).Found {
+					okAllowed = false
+				}
+			}
+		}
+	}
+	if !okOrig {
+		for _, rs := range f.RangeLoops(allPrefixes) {
+			if !chk.InBody(sessLoop, rs) {
+				continue
+			}
+			pv := rangeVal(f, rs)
+			okOrig = !loopSkipsWithout(g, rs, f.IsAssignPat("R.prefixes[P]", "P", chk.H("P", pv)), chk.NoGuard) && !loopHasBreak(g, rs)
+		}
+	}
+	x.Check("updateConfig:every-advertisement-allowed", advLoop.Pos(), okAllowed, "", "an advertisement of the session can be left out of the neighbour's allowed prefixes")
+	x.Check("updateConfig:every-advertisement-originated", advLoop.Pos(), okOrig, "", "an advertised prefix is not added to the router's prefixes (it would be allowed but never originated)")
 	// dedup + sort before store
 	stores := g.Find(f.IsAssignPat("R.neighbors[K]", "N"))
 	x.Check("updateConfig:neighbour-store", sessLoop.Pos(), len(stores) == 1, "", "expected one rout.neighbors[name] = neighbor")
@@ -243,6 +285,37 @@ func c15DedupSort(p *chk.Prog, r *chk.Report) {
 	okLarge := false
 	for _, s := range g.Find(f.IsAssignPat("C", `fmt.Sprintf("large:%s", X.String())`)) {
 		okLarge = g.Dominated(s, g.GPat(true, "community.IsLarge(X)"))
+	}
+	if !okLarge {
+		// the same key spelt as a concatenation, of the community's string or of the local that holds it
+		for _, s := range g.Find(f.IsAssignPat("C", `"large:" + V`)) {
+			v := s.Node.(*ast.AssignStmt).Rhs[0].(*ast.BinaryExpr).Y
+			var comm ast.Expr
+			if b := f.MatchNew("X.String()", v); b != nil {
+				comm = b["X"]
+			} else if id, isId := ast.Unparen(v).(*ast.Ident); isId {
+				defs, entry := g.ReachingDefsAvoiding(id, s, nil)
+				for _, d := range defs {
+					as, isAs := d.(*ast.AssignStmt)
+					if !isAs || len(as.Rhs) != 1 || len(as.Lhs) != 1 || f.MatchNew("X.String()", as.Rhs[0]) == nil {
+						entry = true
+						break
+					}
+					x2 := f.MatchNew("X.String()", as.Rhs[0])["X"]
+					if comm != nil && !f.SameExpr(comm, x2) {
+						entry = true
+					}
+					comm = x2
+				}
+				if entry {
+					comm = nil
+				}
+			}
+			if comm != nil {
+				c0 := comm
+				okLarge = g.Dominated(s, g.GPat(true, "community.IsLarge(X)", chk.H("X", func(e ast.Expr) bool { return f.SameExpr(e, c0) })))
+			}
+		}
 	}
 	x.Check("updateConfig:large-community-key", f.Pos(), okLarge, "", "large communities are not keyed `large:<community>`")
 	for _, name := range []string{"toAdvertiseWithCommunity", "toAdvertiseWithLocalPref"} {
@@ -335,9 +408,17 @@ func c15Password(p *chk.Prog, r *chk.Report) {
 		if !found {
 			x.Fail("updateConfig:neighbor-literal", f.Pos(), "no frrv1beta1.Neighbor literal")
 		} else {
-			both := g.GPat(false, `!reflect.DeepEqual(S.PasswordRef, corev1.SecretReference{}) && S.Password != ""`)
-			ok := g.Dominated(lit, both)
-			for _, e := range g.EdgesImplying(g.GPat(true, `!reflect.DeepEqual(S.PasswordRef, corev1.SecretReference{}) && S.Password != ""`)) {
+			// "a reference is set" and "a password is set", however the two tests are spelt and ordered
+			refEmpty := chk.GSame(g.GPat(true, "reflect.DeepEqual(S.PasswordRef, corev1.SecretReference{})"), g.GPat(true, "reflect.DeepEqual(corev1.SecretReference{}, S.PasswordRef)"),
+				g.GPat(true, "S.PasswordRef == corev1.SecretReference{}"), g.GPat(true, "corev1.SecretReference{} == S.PasswordRef"))
+			pwEmpty := chk.GSame(g.GPat(true, `S.Password == ""`), g.GPat(true, `len(S.Password) == 0`))
+			both := chk.GAnd(chk.GNot(refEmpty), chk.GNot(pwEmpty))
+			ok := g.Dominated(lit, chk.GOr(refEmpty, pwEmpty))
+			es := g.EdgesImplying(both)
+			if len(es) == 0 {
+				ok = false
+			}
+			for _, e := range es {
 				if g.BranchAlways(e, func(n ast.Node) bool { return isErrReturn(f, n) }).Found {
 					ok = false
 				}
@@ -361,6 +442,22 @@ func c15Password(p *chk.Prog, r *chk.Report) {
 				// without a reference the password is the effective plain-text one: the secret's content when the
 				// peer has one, else spec.password (or nothing for an unknown back end)
 				okPw := pf.IsConstString(rr[0], "")
+				if okPw {
+					// no password at all only for a back end that is none of the three known ones
+					bt := isParamIdx(pf, 1)
+					for _, k := range []string{"bgpNative", "bgpFrr", "bgpFrrK8s"} {
+						if !g.Dominated(rt, chk.GSame(g.GPat(false, "T == "+k, chk.H("T", bt)), g.GPat(false, k+" == T", chk.H("T", bt)))) {
+							okPw = false
+						}
+					}
+				}
+				// the two sources returned directly, each under the test that makes it the effective one
+				if !okPw && pf.MatchWith("C.SecretPassword", rr[0], chk.H("C", cfg)) != nil {
+					okPw = g.Dominated(rt, g.GPat(false, `C.SecretPassword == ""`, chk.H("C", cfg)))
+				}
+				if !okPw && pf.MatchWith("C.Password", rr[0], chk.H("C", cfg)) != nil {
+					okPw = g.Dominated(rt, g.GPat(true, `C.SecretPassword == ""`, chk.H("C", cfg)))
+				}
 				if id, isId := ast.Unparen(rr[0]).(*ast.Ident); isId && !okPw {
 					o := pf.ObjOf(id)
 					nPlain, nSecret, other := 0, 0, 0
